@@ -2154,16 +2154,25 @@ class _GroupElem(ABC):
                     # This is the most time-consuming method.
                     # We need to construct the Jacobian matrices here.
                     N_tild = self._N()
+                    # Coordinates relative to the origin and to the size of the element,
+                    # so that the tolerances depend neither on the unit of length
+                    # nor on the position of the mesh.
+                    xElem = coordElemBase[:, :dim] - x0
+                    size = np.linalg.norm(np.ptp(xElem, axis=0))
+                    xElem, xP_n = xElem / size, (xP_n - x0) / size
+                    tol = 1e-14
 
                     def Eval(xi: _types.FloatArray, xP: _types.FloatArray):
                         # x(xi) = sum_i N_i(xi) x_i, the isoparametric map itself
                         N = _GroupElem._Eval_Functions(N_tild, xi.reshape(1, -1))
-                        J = N[0, 0] @ coordElemBase[:, :dim] - xP  # cost function
+                        J = N[0, 0] @ xElem - xP  # cost function
                         return J
 
                     xiP = []
                     for xP in xP_n:
-                        res = least_squares(Eval, 0 * xP, args=(xP,))
+                        res = least_squares(
+                            Eval, 0 * xP, args=(xP,), ftol=tol, xtol=tol, gtol=tol
+                        )
                         xiP.append(res.x)
 
                 # xiP are the n coordinates of the n points in (ξ, η, ζ).
